@@ -208,7 +208,10 @@ def _ev(t, lookup, stat):
     if k in ("sin", "cos", "exp"):
         x = ev(t[1], lookup, stat)
         if isinstance(x, complex):
-            return _chk(getattr(cmath, k)(x))
+            try:
+                return _chk(getattr(cmath, k)(x))
+            except OverflowError:
+                raise OutOfDomain("magnitude")
         if k == "exp" and x > 9:
             raise OutOfDomain("magnitude")
         return _chk(getattr(math, k)(x))
